@@ -156,6 +156,7 @@ type State struct {
 	steps   int
 	pending []pendingGo // goroutines not yet run (lazy spawn)
 	ghost   map[string]Value
+	unchecked int // symbolic forward branches taken since the last feasibility check
 	splits  int // number of deliberate case splits (concretisations) on this path
 }
 
